@@ -280,6 +280,10 @@ func (j *totalJudge) oneRound() {
 	j.do("Decimal.Sign", b2i(isNaN), func() { _ = x.Sign() })
 	j.do("Decimal.Payload", b2i(!isNaN), func() { _ = x.Payload().String() })
 	j.do("Payload.String", 0, func() { _ = decimal128.Payload(z.X.Lo).String() })
+	// payloads shaped like the library's own (operation byte, two operand-class bytes) with every small class value
+	j.do("Payload.String", 0, func() {
+		_ = decimal128.Payload(z.X.Lo%40 | (z.X.Hi%12)<<8 | (z.Y.Lo%12)<<16).String()
+	})
 	j.do("RoundingMode.String", 0, func() { _ = m.String() })
 	// --- elementary
 	for _, u := range unOps {
